@@ -179,7 +179,7 @@ CLAIMED['C13'] = (
 CLAIMED['C14'] = (
     'Lean theorems over a character-level model of row construction (substring match of "  <output>: ", unique-match rule, value extraction) and of the shared file: '
     'the row equals the header cells with unfound outputs removed, so it is aligned iff every output is found exactly once (kernel-evaluated F12 witnesses otherwise); any '
-    'completion order yields a permutation of the successful rows and a failing iteration removes only its own; the row text round-trips through the statistics step\'s parser for any number of values and any sampled-input text (parse_format_row, row_text_aligned: header order survives); min / max / mean / variance specifications, mean between '
+    'completion order yields a permutation of the successful rows and a failing iteration removes only its own; appended rows stay whole under any order of the writes WITHOUT relying on the (racy) file lock, positioned writes tear (kernel witness), and the facts that make the first apply to the code — append mode, one write per row, flushed, no other use of the file object — are read off work_package by the translator on every run and kernel-decided; the row text round-trips through the statistics step\'s parser for any number of values and any sampled-input text (parse_format_row, row_text_aligned: header order survives); min / max / mean / variance specifications, mean between '
     'min and max, and independence of row order (permutation invariance). Tie: every row of real runs is re-simulated from the base file plus its recorded samples and the '
     'outputs re-extracted by the Lean row model from the fresh report (cell-by-cell string equality, header order); the statistics are recomputed exactly in Lean from '
     'the rows and compared with the JSON (1e-9) and the text block (JSON = text, formatted); the multiset of file rows is compared with the rows the workers logged under '
